@@ -16,7 +16,15 @@ class C05(Check):
         "typeToInt/classToInt, stringToTTL, toAbsoluteName with IsDomainName, slurpRemainder and the header part of "
         "ZoneParser.Next as NewRR drives it; scan_rr.go escapedStringOffset, endingToTxtSlice (255-chunking), "
         "endingToString, RFC3597.parse; a presentation grammar (uint, name, IPv4, quoted strings, octet string, hex, "
-        "base64, type list) with a layout table for 49 regular types covering their String() and parse() methods.")
+        "base64, type list) with a layout table for 49 regular types covering their String() and parse() methods; "
+        "and further atoms for 17 irregular types (HINFO, ISDN, UINFO, X25, GPOS, CAA, NAPTR, SMIMEA, NSEC3PARAM, NSEC3, CERT, "
+        "RRSIG, SIG, EUI48, EUI64, NID, L64): strings printed verbatim with or without quotes, the HINFO/ISDN chunk "
+        "repair with strings.Fields (ASCII), saltToString and the recomputed SaltLength, NSEC3 HashLength := 20, "
+        "splitN, the CertTypeToString/AlgorithmToString tables (compared with the real maps and their reverse maps on "
+        "every run), RRSIG type covered / algorithm mnemonics, TimeToString for a clock reading given as a parameter "
+        "and StringToTime (time.Format/time.Parse of layout 20060102150405 by calendar arithmetic, the RFC 1982 "
+        "serial arithmetic and the uint32 truncation), euiToString and the EUI parsers, the NID/L64 groups and "
+        "stringToNodeID.")
     rule = (
         "direct oracles on the implementation alone: for every type in dns.TypeToRR with a presentation format (all but "
         "ANY, NULL, NXNAME, OPT, TSIG, TKEY; the exclusion list is re-checked against the code at run time) records are "
@@ -37,15 +45,25 @@ class C05(Check):
         "escaping functions on all 256 octets raw and escaped, bounded-exhaustive short strings over the escape "
         "alphabet, random strings, the 255/1025 limits; lexer tokens on bounded-exhaustive short inputs, hand-written "
         "lines and every printed record; endingToTxtSlice/endingToString; Type.String/Class.String of all 65536 codes "
-        "by block checksum (sampled blocks in quick); header and RDATA text of generated records of the 49 covered "
+        "by block checksum (sampled blocks in quick); CertTypeToString/AlgorithmToString; TimeToString at the clock "
+        "reading of the run and StringToTime on boundary dates, invalid dates, fractions and random times; header and RDATA text of generated records of the 66 covered "
         "types (model present = String()) and the parse result of NewRR on them and on hand-written header shapes, "
         "generic forms and malformed lines (model parse = NewRR). A case is non-trivial when its arguments are not "
         "empty; distinct by hash of (function, arguments, output).")
     partial = [
-        "irregular printers are not modelled; they are covered by the Go oracles only (modelled: false): AAAA, APL, "
-        "AMTRELAY, CAA, CERT, EUI48, EUI64, GPOS, HINFO, HIP, HTTPS, IPSECKEY, ISDN, L64, LOC, NAPTR, NID, NSEC3, "
-        "NSEC3PARAM, RRSIG, SIG, SMIMEA, SVCB, UINFO, X25",
-        "RRSIG/SIG time rendering depends on the wall clock (TimeToString); exercised by the oracle at the current date only",
+        "eight irregular printers are not modelled; they are covered by the Go oracles only (modelled: false): AAAA, "
+        "LOC, APL, HIP, IPSECKEY, AMTRELAY, SVCB, HTTPS",
+        "GPOS: strconv.ParseFloat is modelled as accepting plain decimals (sign, digits, at most one point, up to 300 "
+        "octets) and rejecting the empty token; for any other token the model gives no answer (OutOfFuel) and the round "
+        "trip is proved for plain decimals only",
+        "RRSIG/SIG time rendering depends on the wall clock (TimeToString): the model takes the clock reading as a "
+        "parameter, c05_time_roundtrip holds for every reading from 1970 on (c05_time_before_1970_refuted shows the "
+        "hypothesis is needed); the correspondence exercises the reading of the run only",
+        "the round trip of the irregular rows holds under the row's well-formedness (wf_val): verbatim strings that are "
+        "one word / have every quote escaped, NSEC3 HashLength 20, SMIMEA text whose 1024-character pieces are words "
+        "(a length that is a multiple of 1024 prints a trailing blank: outside the theorem), EUI48 below 2^48; "
+        "c05_x25_empty_refuted, c05_caa_empty_tag_refuted, c05_nsec3_hash_length_refuted prove three known findings on the model",
+        "HINFO/ISDN: strings.Fields is modelled for ASCII; a lone chunk with an octet >= 0x80 is outside the model (OutOfFuel)",
         "octet-identical RDATA is proved as equality of what each printed field denotes (unescape, name_units, unhex, "
         "numbers, type codes); the wire codecs themselves are C01's; the harness checks real PackRR octets",
         "c05_record_roundtrip assumes toAbsoluteName accepts the printed names (IsDomainName); that valid wire names "
@@ -58,6 +76,8 @@ class C05(Check):
     trusted = [
         "the model's strings.ToUpper is ASCII only (Go's is Unicode aware; differs only for non-ASCII letters in a type/class token)",
         "net.IP.String / net.ParseIP are modelled for dotted-quad IPv4 only",
+        "time.Unix/Format/Parse (layout 20060102150405) are modelled by proleptic Gregorian calendar arithmetic; fmt %x/%X, "
+        "strconv.ParseUint base 16, strings.Fields (ASCII)",
         "strconv.Itoa/ParseUint, strings.Builder, reflect-based field extraction in the harness",
     ]
     shard_size = 220
